@@ -646,6 +646,13 @@ func main() {
 			sum: summary{Chain: cfg.Name, Steps: map[string]int{}, ByFork: map[string]int{}, EngineRuns: map[string]int{},
 				EngineCalls: map[string]int{}, Sites: map[string]int{}, LastSites: map[string]int{}}}
 		c.Observer = r
+		// a panic inside zrnt while the chain harness produces a block ends the scenario, not the recording
+		defer func() {
+			if p := recover(); p != nil {
+				fmt.Fprintln(os.Stderr, "scenario stopped by a panic:", p)
+				_ = json.NewEncoder(os.Stdout).Encode(r.sum)
+			}
+		}()
 		_, err = c.RunScenario(steps)
 		if err != nil {
 			// the scenario stops at the first step zrnt refused; what was recorded so far stays valid
